@@ -3,6 +3,7 @@ package harness
 import (
 	"fmt"
 	"sort"
+	"strings"
 
 	"github.com/jmsadair/raft"
 	"github.com/jmsadair/raft/xsim/simos"
@@ -42,6 +43,9 @@ type Result struct {
 
 // Run executes one simulation.
 func Run(cfg *Config, plan Plan) *Result {
+	if strings.HasPrefix(cfg.Profile, "disk-") {
+		return RunDisk(cfg)
+	}
 	sim := simrt.New(cfg.Seed)
 	sim.Policy.StickyPermille = cfg.StickyPm
 	if cfg.MaxSteps > 0 {
@@ -279,6 +283,7 @@ func (c *Cluster) execStep(st Step) {
 		n := c.byID[st.Node]
 		if n != nil && n.Inc != nil {
 			n.Inc.Proc.StallUntil = c.Sim.Now() + st.A*1_000_000
+			n.Inc.stalledNs += st.A * 1_000_000
 			c.Stats.Stalls++
 		}
 	case StepNetMode:
